@@ -12,8 +12,11 @@ Verdict rules (the property text decides):
   axis polynomial, every contraction coefficient, every entry of the spherical transform and of the
   user transform replaced by its absolute value).  Because every monomial of every term enters the scale
   with its absolute value, cancellation (nodes of the polynomial factor, of the contraction, of the transform)
-  cannot shrink the tolerance below the rounding error of a correct floating-point evaluation.  An absolute
-  floor of 1e-300 covers results in the subnormal range.  A refusal of such a request is a violation.
+  cannot shrink the tolerance below the rounding error of a correct floating-point evaluation.  A second term,
+  2^-1060 x (the same sum with every Gaussian factor replaced by 1, command 103 with nog=1), covers Gaussian
+  factors that fall into the subnormal range of double precision (absolute error up to 2^-1074 BEFORE the
+  factor is multiplied by polynomial, norm and coefficient, which can be 1e20 and more; found by the thorough
+  tier at alpha r^2 ~ 727, see DESIGN "Corrections").  A refusal of such a request is a violation.
 * back-end "direct" with some order > 2, or a back-end name the code does not know: the model answers
   `rejected`.  The implementation passes if it raises (any exception) OR if it returns the exact derivative
   (the request was honoured after all); it fails only if it answers with different numbers.
@@ -32,7 +35,7 @@ import lib
 from lib import XShell, call_impl, compare, gen_shell, run_cases, shrink_shell_json, sx
 
 TOL_REL = 1e-9
-TOL_FLOOR = 1e-300
+SUBNORMAL = 2.0 ** -1060
 BACKENDS = {"general": 0, "direct": 1}
 
 RULE = ("all 125 order triples (each order 0..4) x both back-ends enumerated on every run (thorough: several "
@@ -45,7 +48,7 @@ RULE = ("all 125 order triples (each order 0..4) x both back-ends enumerated on 
         "or more than one shell); distinct by the hash of the exact input")
 ASSUMPTIONS = [
     "floating-point rounding of the NumPy pipeline is not modelled: the accuracy clause is decided on the generated "
-    "inputs against the exact value, tolerance 1e-9 x sum|terms| (model-computed), floor 1e-300",
+    "inputs against the exact value, tolerance 1e-9 x sum|terms| + 2^-1060 x sum|terms without Gaussian| (model-computed)",
     "exp values come from mpmath (72-bit dyadic roundings); arguments are produced exactly by the model",
     "scipy.special.eval_hermite times (-sqrt alpha)^k is modelled by the rational three-term recurrence",
     "the n-th derivative of x^l exp(-a x^2) over the reals is tied to the recurrence u in coq/Gauss/DerivBridge.v "
@@ -88,7 +91,7 @@ def eval_case(model, case):
 
     if kind == "basis":
         exact = model.call("(102 %s %s %s)" % (bsx, sx(pts), _tsx(T)))
-        scale = model.call("(103 %s %s (0 0 0) %s)" % (bsx, sx(pts), _tsx(T)))
+        scale = _scales(model, bsx, pts, [0, 0, 0], T)
         st, impl = call_impl(evaluate_basis, gb, P, _tnp(T))
         tag = "evaluate_basis %s%s" % ("T " if T is not None else "", "lmax=%d" % lmax)
         if st != "ok":
@@ -111,7 +114,7 @@ def eval_case(model, case):
         if st != "ok":
             return {"detail": None, "tag": tag, "nontrivial": True}
         exact = model.call("(101 %s %s %s %s 0)" % (bsx, sx(pts), sx(orders), _tsx(T)))
-        scale = model.call("(103 %s %s %s %s)" % (bsx, sx(pts), sx(orders), _tsx(T)))
+        scale = _scales(model, bsx, pts, orders, T)
         d = _cmp(impl, exact, scale)
         if d is not None:
             d["kind"] = "answered-with-different-numbers"
@@ -122,7 +125,7 @@ def eval_case(model, case):
                                       "cart" if "s" not in types else ("sph" if "c" not in types else "mixed"))
     if st != "ok":
         return {"detail": {"kind": "refused-valid-request", "impl": impl}, "tag": tag, "nontrivial": True}
-    scale = model.call("(103 %s %s %s %s)" % (bsx, sx(pts), sx(orders), _tsx(T)))
+    scale = _scales(model, bsx, pts, orders, T)
     d = _cmp(impl, res, scale)
     return {"detail": d, "tag": tag, "nontrivial": bool((rich or total > 0) and _nonzero(res))}
 
@@ -131,15 +134,22 @@ def _nonzero(nested):
     return any(v != 0 for row in nested for v in row)
 
 
+def _scales(model, bsx, pts, orders, T):
+    """(sum|terms|, sum|terms with the Gaussian factor replaced by 1|), both exact, from the model."""
+    a = model.call("(103 %s %s %s %s 0)" % (bsx, sx(pts), sx(orders), _tsx(T)))
+    b = model.call("(103 %s %s %s %s 1)" % (bsx, sx(pts), sx(orders), _tsx(T)))
+    return (np.array(a, dtype=object), np.array(b, dtype=object))
+
+
 def _cmp(impl, exact, scale):
-    sc = np.array(scale, dtype=object)
+    sc, sc1 = scale
 
     def tol(idx):
-        return max(TOL_REL * float(sc[idx]), TOL_FLOOR)
+        return TOL_REL * float(sc[idx]) + SUBNORMAL * float(sc1[idx])
 
     d = compare(impl, exact, tol_fn=tol)
     if d is not None and d.get("kind") == "value":
-        d["tolerance_rule"] = "1e-9 x sum|terms| (model command 103), floor 1e-300"
+        d["tolerance_rule"] = "1e-9 x sum|terms| + 2^-1060 x sum|terms without Gaussian| (model command 103)"
         d["scale"] = float(sc[tuple(d["index"])])
     return d
 
@@ -231,12 +241,25 @@ def gen_basis(rng, n, l_first, kmax, mmax, lmax_rest, types):
     return out
 
 
+def full_mantissa(rng, basis, pts):
+    """The minority stream with 53-bit numbers: exponents and point coordinates with full mantissas."""
+    for s in basis:
+        s.exps = [Fraction(float(e) * (1.0 + rng.random() / 64.0)) for e in s.exps]
+    out = []
+    for k, p in enumerate(pts):
+        if k < 3:
+            out.append(p)  # keep the points on a centre / axis / plane exactly there
+        else:
+            out.append([str(Fraction(float(Fraction(c)) + rng.uniform(-0.25, 0.25))) for c in p])
+    return out
+
+
 def gen_cases(tier, seed):
     rng = random.Random(7000003 * seed + 5)
     quick = tier == "quick"
     cases = []
     triples = list(itertools.product(range(5), repeat=3))
-    reps = 1 if quick else 4
+    reps = 2 if quick else 16
     idx = 0
     for rep in range(reps):
         order = list(triples)
@@ -246,18 +269,27 @@ def gen_cases(tier, seed):
                 l = idx % 7
                 idx += 1
                 heavy = l >= 5
-                n = 1 if (quick and heavy) else (1 + (idx // 7) % (2 if quick else 4))
+                if quick:
+                    n = 1 + (idx // 7) % (2 if heavy else 3)
+                else:
+                    n = 1 + (idx // 7) % 4
                 types = "crsm"[(idx // 3) % 4]
-                basis = gen_basis(rng, n, l, kmax=(2 if heavy else 3) if quick else 4, mmax=2 if (quick or heavy) else 3,
-                                  lmax_rest=2 if quick else 3, types=types)
-                npts = rng.randint(3, 4 if heavy else 6) if quick else rng.randint(1, 10)
-                c = {"kind": "deriv", "basis": [s.to_json() for s in basis], "points": gen_points(rng, basis, npts),
+                basis = gen_basis(rng, n, l, kmax=(2 if heavy else 3) if quick else 4, mmax=2 if quick else 3,
+                                  lmax_rest=2 if quick else 4, types=types)
+                if quick:
+                    npts = rng.randint(3, 5 if heavy else 8)
+                else:
+                    npts = rng.randint(30, 50) if idx % 16 == 0 else rng.randint(1, 12)
+                pts = gen_points(rng, basis, npts)
+                if idx % (25 if quick else 10) == 0:
+                    pts = full_mantissa(rng, basis, pts)
+                c = {"kind": "deriv", "basis": [s.to_json() for s in basis], "points": pts,
                      "orders": list(o), "backend": bname, "transform": None}
                 if idx % 4 == 0:
                     c["transform"] = gen_transform(rng, basis)
                 cases.append(c)
     # evaluate_basis: every l, both coordinate types, with / without transform
-    for rep in range(1 if quick else 3):
+    for rep in range(2 if quick else 8):
         for l in range(7):
             for sph in (False, True):
                 n = 1 + (l + rep) % (2 if quick else 4)
@@ -271,7 +303,7 @@ def gen_cases(tier, seed):
                     c["transform"] = gen_transform(rng, basis)
                 cases.append(c)
     # many points (up to 50), 4 shells
-    for i in range(2 if quick else 8):
+    for i in range(4 if quick else 24):
         basis = gen_basis(rng, 4 if i % 2 == 0 else 2, rng.randint(0, 3), kmax=4, mmax=3, lmax_rest=2, types="r")
         o = [[1, 0, 2], [0, 0, 0], [2, 2, 0], [0, 3, 1]][i % 4]
         cases.append({"kind": "deriv", "basis": [s.to_json() for s in basis],
